@@ -22,10 +22,27 @@
                 line; `testRules_same_view`: `test_rules_at_line` answers alike on states that show
                 the same view (so paragraphs, setext headings, reference definitions, lists and
                 quotes end at the same lines in D and in the prefixed document)
+    simulation  `Sim L s s'` relates a state of the run on D (lines `L`) to a state of the run nested in
+                the quote on the prefixed document (same `line`, `line_max`, `blk_indent`, `tight`,
+                `list_indent`; entry `i` of `s'` = `shiftEntry i` of entry `i` of `s`; `level' = level + 1`;
+                children related by `relocNodes (sigma L)`; equal reference maps).  Every rule in real
+                mode preserves it: `hr_sim`, `heading_sim`, `code_sim`, `fence_sim`, `paragraph_sim`,
+                `lheading_sim`, `reference_sim`, `blockquote_sim` (with `bqScan_sim`), `list_sim`
+                (with `listItem_sim`, `listLoop_sim`), then `runChain_sim`, `tokLoop_sim`,
+                `tokenize_sim` for every fuel
+    whole doc   `quote_commutes`: for a tab-free D (< 2 GiB) and a chain with the block-quote rule behind
+                code/fence/hr/list/reference/heading only, `parseBlocks cfg D = ok (root, refs)` implies
+                that, with one more level of nesting allowed, `prefixQuote D` parses to a root with one
+                child, a block quote over all lines, whose children are `relocNodes sigma root.children`,
+                with the same reference map; `sigma_spec`: byte `x` of line `i` ↦ byte `2 + x` of line `i`
+                of the prefixed document.  Examples below it instantiate it (stock chain, a 16-line
+                document in which all nine rules fire) and show that each hypothesis is needed
+                (nesting limit, chain order, tabs).
   together with `Props/Block.lean`: `tokenize_progress` (the nested tokenizer hands the table back as
-  it found it), `bqScan_spec` (the quote restores every entry it rewrote).
-  OPEN (end of file): the whole-document congruence `quote_commutes`, with its exact preconditions —
-  one of which (nesting depth below the limit) is a boundary of the property itself.
+  it found it), `bqScan_spec` (the quote restores every entry it rewrote), `tokenize_mono` (more fuel
+  does not change a result), `tokenize_exit`.
+  OPEN (end of file): the list half at whole-document level (`item_commutes`), with what is proved
+  towards it and what is missing.
 -/
 import MdIt.Props.Block
 set_option linter.unusedSimpArgs false
@@ -695,7 +712,7 @@ theorem startOf_zero (L : DLines) : startOf L 0 = 0 := by simp [startOf]
 theorem startOf_succ (L : DLines) (i : Nat) (h : i < L.length) :
     startOf L (i + 1) = startOf L i + Lines.byteLen L[i].1 + Lines.byteLen L[i].2 := by
   unfold startOf
-  rw [List.take_succ, List.getElem?_eq_getElem h]
+  rw [List.take_add_one, List.getElem?_eq_getElem h]
   simp only [Option.toList_some, Lines.flat_append, Lines.flat_cons, Lines.flat_nil, Lines.byteLen_append,
     List.append_nil]
   omega
@@ -839,7 +856,7 @@ theorem Tbl.isEmpty (T : Tbl L s s') (n : Nat) : s'.isEmpty n = s.isEmpty n := b
   | some o => simp [shiftEntry]
 
 /-- the text of line `i` behind the cut, read from either source -/
-theorem entry_text (hL : LinesOk L) {i : Nat} {o : LineOffset} (h : EntryOk L i o) :
+theorem entry_text (_hL : LinesOk L) {i : Nat} {o : LineOffset} (h : EntryOk L i o) :
     ∃ b, Lines.slice (Lines.flat L) o.firstNonspace o.lineEnd = .ok b ∧
       Lines.slice (Lines.flat (prefixLines L)) (shiftEntry i o).firstNonspace (shiftEntry i o).lineEnd = .ok b := by
   obtain ⟨l, t, a, b, hi, hl, hs, hf, he, _⟩ := h
@@ -1061,6 +1078,20 @@ theorem relocNodes_eq_map (σ : Nat → Nat) (cs : List BNode) : relocNodes σ c
 theorem relocNode_kind (σ : Nat → Nat) (n : BNode) : (relocNode σ n).kind = relocKind σ n.kind := by
   cases n; rfl
 
+/-- the kinds of the two current nodes: equal — or, at the top of the two runs, `Root` on the `D` side and
+    the block quote on the other (no rule distinguishes the two) -/
+def KindRel (k k' : Kind) : Prop := k' = k ∨ (k = .root ∧ k' = .blockquote)
+
+theorem KindRel.isList {k k' : Kind} (h : KindRel k k') : isListKind k' = isListKind k := by
+  rcases h with h | ⟨h1, h2⟩
+  · rw [h]
+  · rw [h1, h2]; rfl
+
+theorem KindRel.eq_of_ne_root {k k' : Kind} (h : KindRel k k') (hk : k ≠ .root) : k' = k := by
+  rcases h with h | ⟨h1, _⟩
+  · exact h
+  · exact absurd h1 hk
+
 /-- the run on `D` (state `s`) and the nested run on the prefixed document (state `s'`) -/
 structure Sim (L : DLines) (s s' : BState) : Prop where
   tbl : Tbl L s s'
@@ -1069,7 +1100,7 @@ structure Sim (L : DLines) (s s' : BState) : Prop where
   tight : s'.tight = s.tight
   listIndent : s'.listIndent = s.listIndent
   level : s'.level = s.level + 1
-  nodeKind : s'.nodeKind = s.nodeKind
+  nodeKind : KindRel s.nodeKind s'.nodeKind
   children : s'.children = relocNodes (sigma L) s.children
   refs : s'.refs = s.refs
 
@@ -1311,7 +1342,7 @@ theorem fence_sim (S : Sim L s s') (hi : IndentOk s) {b : Bool} {t : BState}
   sim_close S
 
 theorem Sim.sameLook (S : Sim L s s') : SameLook s s' := by
-  refine ⟨by rw [S.line, S.tbl.lineIndent], by rw [S.line, S.tbl.getLine], by rw [S.nodeKind], ?_⟩
+  refine ⟨by rw [S.line, S.tbl.lineIndent], by rw [S.line, S.tbl.getLine], S.nodeKind.isList, ?_⟩
   unfold listSpecial
   rw [S.listIndent, S.line, S.tbl.off, S.tbl.blk]
   cases s.listIndent with
@@ -1725,7 +1756,7 @@ theorem blockquote_sim {tok tok' : Tok} {test test' : Test} (hk : TokSpec tok) (
     -- the nested tokenizers
     have S1s : Sim L (nestBq S1 s.line n) (nestBq S1' s.line n) :=
       ⟨⟨SS1.tbl.lines, SS1.tbl.src, SS1.tbl.src', SS1.tbl.q, rfl, Nat.zero_le _⟩, rfl, rfl, SS1.tight,
-        SS1.listIndent, by simp [SS1.level], rfl, rfl, SS1.refs⟩
+        SS1.listIndent, by simp [SS1.level], .inl rfl, rfl, SS1.refs⟩
     obtain ⟨s2', htok', S2⟩ := TK _ _ _ S1s htok
     have hfr := hk.frame _ _ htok
     have hfr' := hk'.frame _ _ htok'
@@ -1754,54 +1785,1332 @@ theorem blockquote_sim {tok tok' : Tok} {test test' : Test} (hk : TokSpec tok) (
     · simp [S2.tight]
     · simp [S2.listIndent]
     · simp [S2.level]; omega
-    · simp [hsb.nodeKind, hsb'.nodeKind, S.nodeKind]
+    · simpa [hsb.nodeKind, hsb'.nodeKind] using S.nodeKind
     · simp [hsb.children, hsb'.children, S.children, relocNodes_append, relocNodes, relocNode, S2.children,
-        S2.nodeKind, hfr.nodeKind, relocKind, sigma2]
+        hfr'.nodeKind, hfr.nodeKind, relocKind, sigma2]
     · simp [S2.refs]
 end bq
 
 
 
+/-! ### list markers are ASCII: `pos_after_marker` counts characters and bytes alike -/
+
+/-- the first `p` bytes of `cur` are `p` one-byte characters -/
+def MarkerW (cur : List Char) (p : Nat) : Prop :=
+  ∃ mk rest, cur = mk ++ rest ∧ mk.length = p ∧ Lines.byteLen mk = p
+
+theorem isDigit_size {c : Char} (h : isDigit c = true) : c.utf8Size = 1 := by
+  simp only [isDigit, Bool.and_eq_true, decide_eq_true_eq] at h
+  have h2 : c.val.toNat = c.toNat := rfl
+  unfold Char.utf8Size
+  have : c.val ≤ 127 := by
+    rw [UInt32.le_iff_toNat_le]
+    simp
+    omega
+  simp [this]
+
+theorem ordLoop_spec : ∀ (cs : List Char) (pos p : Nat) (rest : List Char), ordLoop cs pos = some (p, rest) →
+    ∃ mk, cs = mk ++ rest ∧ pos + mk.length = p ∧ pos + Lines.byteLen mk = p
+  | [], _, _, _, h => by simp [ordLoop] at h
+  | c :: r, pos, p, rest, h => by
+    simp only [ordLoop] at h
+    split at h
+    · rename_i hd
+      split at h
+      · cases h
+      · obtain ⟨mk, h1, h2, h3⟩ := ordLoop_spec r (pos + 1) p rest h
+        exact ⟨c :: mk, by simp [h1], by simp; omega, by simp [isDigit_size hd]; omega⟩
+    · split at h
+      · rename_i hc
+        simp at h
+        obtain ⟨rfl, rfl⟩ := h
+        have : c.utf8Size = 1 := by rcases hc with rfl | rfl <;> decide
+        exact ⟨[c], by simp, by simp, by simp [this]⟩
+      · cases h
+
+theorem skipOrdered_marker {cur : List Char} {p : Nat} (h : skipOrdered cur = some p) : MarkerW cur p := by
+  cases cur with
+  | nil => simp [skipOrdered] at h
+  | cons c r =>
+    simp only [skipOrdered] at h
+    split at h
+    · rename_i hd
+      cases hl : ordLoop r 1 with
+      | none => simp [hl] at h
+      | some v =>
+        obtain ⟨q, rest⟩ := v
+        obtain ⟨mk, h1, h2, h3⟩ := ordLoop_spec r 1 q rest hl
+        have hq : q = p := by
+          simp only [hl] at h
+          split at h
+          · simpa using h
+          · split at h
+            · simpa using h
+            · cases h
+        subst hq
+        exact ⟨c :: mk, rest, by simp [h1], by simp; omega, by simp [isDigit_size hd]; omega⟩
+    · cases h
+
+theorem skipBullet_marker {cur : List Char} {p : Nat} (h : skipBullet cur = some p) : MarkerW cur p := by
+  cases cur with
+  | nil => simp [skipBullet] at h
+  | cons c r =>
+    simp only [skipBullet] at h
+    split at h
+    · rename_i hc
+      have hs : c.utf8Size = 1 := by rcases hc with rfl | rfl | rfl <;> decide
+      have hp : p = 1 := by
+        split at h
+        · simpa using h.symm
+        · split at h
+          · simpa using h.symm
+          · cases h
+      subst hp
+      exact ⟨[c], r, by simp, by simp, by simp [hs]⟩
+    · cases h
+
+theorem detectMarker_marker {cur : List Char} {p : Nat} {v : Option Nat}
+    (h : detectMarker cur = .ok (some (p, v))) : MarkerW cur p := by
+  unfold detectMarker at h
+  split at h
+  · rename_i q hq
+    crack h
+    exact skipOrdered_marker hq
+  · split at h
+    · rename_i q hq
+      simp [pure, Except.pure] at h
+      obtain ⟨rfl, _⟩ := h
+      exact skipBullet_marker hq
+    · simp [pure, Except.pure] at h
+
+section item
+variable {L : DLines}
+
+theorem itemRewrite_sim (hL : LinesOk L) {i : Nat} {o o₂ : LineOffset} {pos indent : Nat} {re : Bool}
+    (eo : EntryOk L i o) {cur : List Char}
+    (hcur : Lines.slice (Lines.flat L) o.firstNonspace o.lineEnd = .ok cur) (hm : MarkerW cur pos)
+    (h : itemRewrite (Lines.flat L) o pos = .ok (o₂, indent, re)) :
+    itemRewrite (Lines.flat (prefixLines L)) (shiftEntry i o) pos = .ok (shiftEntry i o₂, indent, re) ∧
+      EntryOk L i o₂ ∧ indent ≤ Lines.byteLen (Lines.flat L) + 1 := by
+  obtain ⟨l, ⟨t, hLi⟩, htab, hsl, hsl'⟩ := entry_line hL eo
+  have hsz := (entry_le_size eo).1
+  obtain ⟨l0, t0, a, b, hi, hl, hs, hf, he, hind⟩ := eo
+  rw [hLi] at hi
+  simp only [Option.some.injEq, Prod.mk.injEq] at hi
+  obtain ⟨rfl, rfl⟩ := hi
+  -- `cur = b`
+  have hlt : i < L.length := (List.getElem?_eq_some_iff.mp hLi).1
+  have hLe : L[i] = (l, t) := (List.getElem?_eq_some_iff.mp hLi).2
+  have hcb : cur = b := by
+    have := slice_in_line L i hlt a b [] (by rw [hLe, hl]; simp)
+    rw [← hf, show o.firstNonspace + Lines.byteLen b = o.lineEnd by omega, hcur] at this
+    exact Except.ok.inj this
+  subst hcb
+  obtain ⟨mk, rest, hmk, hmkl, hmkb⟩ := hm
+  unfold itemRewrite at h ⊢
+  simp only [shiftEntry_indent, hsl, hsl', liftL_ok', ok_bind] at h ⊢
+  crack h
+  rename_i hneg rel hrel fi hfi lineLen hlen ho2 hind2
+  obtain ⟨hr1, rfl⟩ := psub_ok hrel
+  obtain ⟨hr2, rfl⟩ := psub_ok hlen
+  have hfi' := liftL_ok hfi
+  obtain ⟨ind0, fn⟩ := fi
+  obtain ⟨hpre, p, run, rest2, hdec, hp, hpr, hir, hrun⟩ :=
+    findIndent_prefix_tabfree ['>', ' '] l (by decide) htab hfi'
+  simp only [show Lines.byteLen ['>', ' '] = 2 by decide, List.cons_append, List.nil_append] at hpre
+  -- `p = a ++ mk`
+  have hpa : p = a ++ mk := by
+    have h1 : p ++ (run ++ rest2) = (a ++ mk) ++ rest := by rw [← List.append_assoc, ← hdec, hl, hmk]; simp
+    exact (Lines.append_inj_byteLen h1 (by simp; omega)).1
+  have hrel' : psub (pos + (shiftEntry i o).firstNonspace) (shiftEntry i o).lineStart
+      = .ok (2 + (pos + o.firstNonspace - o.lineStart)) := by
+    rw [psub_eq (by simp only [shiftEntry]; omega)]
+    congr 1; simp only [shiftEntry]; omega
+  have hlen' : psub (shiftEntry i o).lineEnd (shiftEntry i o).lineStart = .ok (o.lineEnd - o.lineStart + 2) := by
+    rw [psub_eq (by simp only [shiftEntry]; omega)]
+    congr 1; simp only [shiftEntry]; omega
+  have hbeq : (2 + fn == o.lineEnd - o.lineStart + 2) = (fn == o.lineEnd - o.lineStart) := by
+    apply Bool.eq_iff_iff.mpr
+    simp only [beq_iff_eq]
+    omega
+  rw [if_neg hneg]
+  simp only [hrel', hpre, liftL_ok', hlen', ok_bind, pure, Except.pure, hbeq]
+  subst ho2 hind2
+  refine ⟨?_, ?_, ?_⟩
+  · simp only [Except.ok.injEq, Prod.mk.injEq, and_true]
+    simp only [shiftEntry]
+    congr 1 <;> omega
+  · refine ⟨l, t, p ++ run, rest2, hLi, by rw [hdec], hs, ?_, ?_, ?_⟩
+    · simp only; rw [hpr]; omega
+    · simp only
+      have := congrArg Lines.byteLen hdec
+      simp only [Lines.byteLen_append] at this hpr ⊢
+      have hbl : Lines.byteLen l = Lines.byteLen a + Lines.byteLen cur := by rw [hl]; simp
+      omega
+    · simp only [List.length_append, hpa]
+      omega
+  · -- the content indent stays within the line, plus one
+    have h2 : (if (fn == o.lineEnd - o.lineStart) = true then 1 else if ind0 > 4 then 1 else ind0) ≤ ind0 + 1 := by
+      split
+      · omega
+      · split <;> omega
+    generalize (if (fn == o.lineEnd - o.lineStart) = true then 1 else if ind0 > 4 then 1 else ind0) = X at h2
+    have hbl : Lines.byteLen l = Lines.byteLen a + Lines.byteLen cur := by rw [hl]; simp
+    have h3 := Lines.length_le_byteLen a
+    have h4 := hrun.byteLen
+    have h5 : Lines.byteLen p = Lines.byteLen a + Lines.byteLen mk := by rw [hpa]; simp
+    have h6 := congrArg Lines.byteLen hdec
+    simp only [Lines.byteLen_append] at h6 hpr
+    omega
+
+theorem listItemBody_sim {tok tok' : Tok} (TK : TokSim L tok tok') {S2 S2' S3 : BState} (S : Sim L S2 S2')
+    {m : Nat} {re : Bool} (h : listItemBody tok S2 m re = .ok S3) :
+    ∃ S3', listItemBody tok' S2' m re = .ok S3' ∧ Sim L S3 S3' := by
+  unfold listItemBody at h ⊢
+  simp only [S.tbl.isEmpty]
+  crack h
+  all_goals (try subst_vars)
+  · replay_goal
+    refine ⟨_, rfl, ?_⟩
+    exact ⟨S.tbl.of_eq rfl rfl rfl rfl rfl rfl, by simp [S.line, S.lineMax], S.lineMax, S.tight, S.listIndent,
+      S.level, S.nodeKind, S.children, S.refs⟩
+  · rename_i hc s2 htok lvl hlvl
+    have Sn : Sim L { S2 with line := m, level := S2.level + 1 } { S2' with line := m, level := S2'.level + 1 } :=
+      ⟨S.tbl.of_eq rfl rfl rfl rfl rfl rfl, rfl, S.lineMax, S.tight, S.listIndent, by simp [S.level],
+        S.nodeKind, S.children, S.refs⟩
+    obtain ⟨s2', htok', S2s⟩ := TK _ _ _ Sn htok
+    obtain ⟨hl1, rfl⟩ := psub_ok hlvl
+    have hlvl' : psub s2'.level 1 = .ok (s2'.level - 1) := psub_eq (by rw [S2s.level]; omega)
+    replay_goal
+    refine ⟨_, rfl, ?_⟩
+    exact ⟨S2s.tbl.of_eq rfl rfl rfl rfl rfl rfl, S2s.line, S2s.lineMax, S2s.tight, S2s.listIndent,
+      by simp [S2s.level]; omega, S2s.nodeKind, S2s.children, S2s.refs⟩
+
+theorem prevEmptyEndOf_sim {s s' : BState} (S : Sim L s s') (m : Nat) :
+    prevEmptyEndOf s' m = prevEmptyEndOf s m := by
+  unfold prevEmptyEndOf
+  simp only [S.line, S.tbl.isEmpty]
+
+/-- the state the list rule hands to an item -/
+abbrev nestItem (s : BState) (indent : Nat) : BState :=
+  { s with nodeKind := .listItem, children := [], listIndent := some s.blkIndent, blkIndent := indent, tight := true }
+
+/-- …and the state after the item, before its entry is restored -/
+abbrev afterItem (S3 : BState) (li : Nat) (old : Option Nat) : BState :=
+  { S3 with blkIndent := li, listIndent := old }
+
+theorem listItem_sim {tok tok' : Tok} (hk : TokSpec tok) (_hk' : TokSpec tok') (TK : TokSim L tok tok')
+    {s s' : BState} (S : Sim L s s') {m pos : Nat} {pee tight pee₂ tight₂ : Bool} {t : BState}
+    (hmk : ∃ cur, s.getLine m = .ok cur ∧ MarkerW cur pos) (hline : s.line = m) (hlt : m < s.lineMax)
+    (h : listItem tok s m pos pee tight = .ok (t, tight₂, pee₂)) :
+    ∃ t', listItem tok' s' m pos pee tight = .ok (t', tight₂, pee₂) ∧ Sim L t t' := by
+  have hspec := listItem_spec hk h hline hlt
+  unfold listItem at h ⊢
+  simp only [S.tbl.off]
+  crack h
+  rename_i o ho rw hrw S2 hS2 S3 hbody _ li hli S5 hS5 e he r hr hS' htight hpee
+  obtain ⟨o₂, indent, re⟩ := rw
+  obtain ⟨cur, hcur, hmw⟩ := hmk
+  have eo := S.tbl.entry_of_off ho
+  have hcur' : Lines.slice (Lines.flat L) o.firstNonspace o.lineEnd = .ok cur := by
+    simp only [BState.getLine, Lines.getLine, off_ok ho, S.tbl.src] at hcur
+    exact liftL_ok hcur
+  have hrw0 := hrw
+  rw [S.tbl.src] at hrw
+  obtain ⟨hrw', eo₂, hbound⟩ := itemRewrite_sim S.tbl.lines eo hcur' hmw hrw
+  rw [← S.tbl.src'] at hrw'
+  simp only at hS2 hbody
+  -- the item's state
+  have S1 : Sim L (nestItem s indent) (nestItem s' indent) :=
+    ⟨⟨S.tbl.lines, S.tbl.src, S.tbl.src', S.tbl.q, rfl, hbound⟩, S.line, S.lineMax, rfl,
+      by simp [S.tbl.blk], S.level, .inl rfl, rfl, S.refs⟩
+  obtain ⟨S2', hS2', SS2⟩ := S1.setOff hS2 eo₂
+  obtain ⟨S3', hbody', SS3⟩ := listItemBody_sim TK SS2 hbody
+  have hli' : S3'.listIndent = some li := by rw [SS3.listIndent]; exact hli
+  -- `li` is the list's own block indent
+  obtain ⟨hfr3, _, _⟩ := listItemBody_spec hk hbody (by rw [(setOff_ok hS2).2]; exact hline)
+    (by rw [(setOff_ok hS2).2]; exact hlt) (by
+      have := itemRewrite_spec hrw0
+      refine item_cond (x := o₂) (by rw [(setOff_ok hS2).2]; simp [(setOff_ok hS2).1]) ?_
+      rw [(setOff_ok hS2).2]
+      exact this.2)
+  have hlieq : li = s.blkIndent := by
+    have : some li = some s.blkIndent := by rw [← hli, hfr3.listIndent, (setOff_ok hS2).2]
+    exact Option.some.inj this
+  have S4 : Sim L (afterItem S3 li s.listIndent) (afterItem S3' li s'.listIndent) :=
+    ⟨⟨SS3.tbl.lines, SS3.tbl.src, SS3.tbl.src', SS3.tbl.q, rfl, by rw [hlieq]; exact S.tbl.small⟩, SS3.line,
+      SS3.lineMax, SS3.tight, S.listIndent, SS3.level, SS3.nodeKind, SS3.children, SS3.refs⟩
+  obtain ⟨S5', hS5', SS5⟩ := S4.setOff hS5 eo
+  have hpee' := prevEmptyEndOf_sim SS3 m
+  rw [hpee] at hpee'
+  have he' : psub S5'.line 1 = .ok e := by rw [SS5.line]; exact he
+  have T6 : Tbl L { S5 with tight := s.tight } { S5' with tight := s'.tight } := SS5.tbl.of_eq rfl rfl rfl rfl rfl rfl
+  have hr' := T6.getMap m e
+  rw [hr] at hr'
+  -- the kind of the node pushed
+  have hkind : S5.nodeKind = .listItem := by
+    rw [(setOff_ok hS5).2]
+    simp only
+    rw [hfr3.nodeKind, (setOff_ok hS2).2]
+  have hflag : (if ¬S3'.tight = true ∨ pee = true then false else tight)
+      = (if ¬S3.tight = true ∨ pee = true then false else tight) := by rw [SS3.tight]
+  clear hlieq hspec
+  replay_goal
+  try simp only [hflag]
+  subst hS' htight
+  refine ⟨_, rfl, ?_⟩
+  refine ⟨SS5.tbl.of_eq rfl rfl rfl rfl rfl rfl, SS5.line, SS5.lineMax, by simp [S.tight], SS5.listIndent, SS5.level,
+    by simpa using S.nodeKind, ?_, SS5.refs⟩
+  have hkind' : S5'.nodeKind = .listItem := by
+    rw [SS5.nodeKind.eq_of_ne_root (by rw [hkind]; simp), hkind]
+  simp [S.children, relocNodes_append, relocNodes, relocNode, hkind', SS5.children, hkind, relocKind, sigma2]
+
+theorem listContinue_sim {test test' : Test} (TS : TestSim L test test') {ordered : Bool} {mc : Char}
+    {s s' t : BState} (S : Sim L s s') {c : Option Nat}
+    (h : listContinue test ordered mc s s.line = .ok (c, t)) :
+    t = s ∧ listContinue test' ordered mc s' s.line = .ok (c, s') ∧
+      (∀ p, c = some p → ∃ cur, s.getLine s.line = .ok cur ∧ MarkerW cur p) := by
+  have hpure := (listContinue_spec TS.pure h).1
+  subst hpure
+  refine ⟨rfl, ?_⟩
+  unfold listContinue at h ⊢
+  simp only [S.lineMax, S.tbl.lineIndent]
+  crack h
+  all_goals (try subst_vars)
+  · replay_goal
+    first | exact ⟨trivial, fun p hp => by cases hp⟩ | exact fun p hp => by cases hp
+  · replay_goal
+    first | exact ⟨trivial, fun p hp => by cases hp⟩ | exact fun p hp => by cases hp
+  · replay_goal
+    first | exact ⟨trivial, fun p hp => by cases hp⟩ | exact fun p hp => by cases hp
+  · obtain ⟨hc, hst⟩ := h
+    subst hc
+    obtain ⟨h1, ht⟩ := TS.transfer S ‹test _ = _›
+    have hself : ({ s' with line := s'.line } : BState) = s' := by cases s'; rfl
+    replay_goal
+    try simp only [hself]
+    first | exact ⟨trivial, fun p hp => by cases hp⟩ | exact fun p hp => by cases hp
+  · obtain ⟨hc, hst⟩ := h
+    subst hc
+    obtain ⟨h1, ht⟩ := TS.transfer S ‹test _ = _›
+    have hself : ({ s' with line := s'.line } : BState) = s' := by cases s'; rfl
+    have hcur := ‹BState.getLine _ _ = _›
+    simp only [h1, set_line_back] at hcur
+    have hcur2 : t.getLine t.line = _ := hcur
+    have hcur' := (show s'.getLine s'.line = t.getLine t.line by rw [S.line, S.tbl.getLine]).trans hcur2
+    replay_goal
+    try simp only [hself, hcur', ok_bind]
+    try replay_goal
+    first | exact ⟨trivial, fun p hp => by cases hp⟩ | exact fun p hp => by cases hp
+  · obtain ⟨hc, hst⟩ := h
+    subst hc
+    obtain ⟨h1, ht⟩ := TS.transfer S ‹test _ = _›
+    have hself : ({ s' with line := s'.line } : BState) = s' := by cases s'; rfl
+    have hcur := ‹BState.getLine _ _ = _›
+    simp only [h1, set_line_back] at hcur
+    have hcur2 : t.getLine t.line = _ := hcur
+    have hcur' := (show s'.getLine s'.line = t.getLine t.line by rw [S.line, S.tbl.getLine]).trans hcur2
+    replay_goal
+    try simp only [hself, hcur', ok_bind]
+    try replay_goal
+    first | exact ⟨trivial, fun p hp => by cases hp⟩ | exact fun p hp => by cases hp
+  · obtain ⟨hc, hst⟩ := h
+    subst hc
+    obtain ⟨h1, ht⟩ := TS.transfer S ‹test _ = _›
+    have hself : ({ s' with line := s'.line } : BState) = s' := by cases s'; rfl
+    have hcur := ‹BState.getLine _ _ = _›
+    simp only [h1, set_line_back] at hcur
+    have hcur2 : t.getLine t.line = _ := hcur
+    have hcur' := (show s'.getLine s'.line = t.getLine t.line by rw [S.line, S.tbl.getLine]).trans hcur2
+    have hskip := ‹(if ordered = true then _ else _) = some _›
+    replay_goal
+    try simp only [hself, hcur', ok_bind]
+    try replay_goal
+    first | refine ⟨trivial, fun p hp => ⟨_, rfl, ?_⟩⟩ | refine fun p hp => ⟨_, rfl, ?_⟩ | refine ⟨trivial, fun p hp => ⟨_, hcur2, ?_⟩⟩ | refine fun p hp => ⟨_, hcur2, ?_⟩
+    cases hp
+    cases ordered
+    · exact skipBullet_marker (by simpa using hskip)
+    · exact skipOrdered_marker (by simpa using hskip)
+
+theorem listLoop_sim {tok tok' : Tok} {test test' : Test} (hk : TokSpec tok) (hk' : TokSpec tok')
+    (TK : TokSim L tok tok') (TS : TestSim L test test') {ordered : Bool} {mc : Char} :
+    ∀ (fuel : Nat) (s s' : BState) (m pos : Nat) (pee tight : Bool) (r : Nat × Bool × BState),
+      Sim L s s' → s.line = m → m < s.lineMax → (∃ cur, s.getLine m = .ok cur ∧ MarkerW cur pos) →
+      listLoop tok test ordered mc fuel s m pos pee tight = .ok r →
+      ∃ S', listLoop tok' test' ordered mc fuel s' m pos pee tight = .ok (r.1, r.2.1, S') ∧ Sim L r.2.2 S' := by
+  intro fuel
+  induction fuel with
+  | zero => intro s s' m pos pee tight r _ _ _ _ h; simp [listLoop] at h
+  | succ f ih =>
+    intro s s' m pos pee tight r S hline hlt hmk h
+    simp only [listLoop] at h ⊢
+    simp only [S.lineMax]
+    crack h
+    all_goals (try subst_vars)
+    · rename_i wi wc hc _ hnone _ hitem
+      obtain ⟨S1, t1, p1⟩ := wi
+      obtain ⟨c, S2⟩ := wc
+      obtain ⟨S1', hitem', SS1⟩ := listItem_sim hk hk' TK S hmk rfl hlt hitem
+      simp only at hc hnone
+      subst hnone
+      obtain ⟨rfl, hc', _⟩ := listContinue_sim TS SS1 hc
+      rw [← SS1.line] at hc'
+      replay_goal
+      rw [SS1.line]
+      exact ⟨_, rfl, SS1⟩
+    · rename_i wi wc hc _ p hsome _ hitem
+      obtain ⟨S1, t1, p1⟩ := wi
+      obtain ⟨c, S2⟩ := wc
+      obtain ⟨S1', hitem', SS1⟩ := listItem_sim hk hk' TK S hmk rfl hlt hitem
+      simp only at hc hsome h
+      subst hsome
+      obtain ⟨hfr, h1, _⟩ := listItem_spec hk hitem rfl hlt
+      obtain ⟨_, hc2⟩ := listContinue_spec TS.pure hc
+      obtain ⟨rfl, hc', hmk2⟩ := listContinue_sim TS SS1 hc
+      rw [← SS1.line] at hc'
+      have hlt2 := hc2 (by simp)
+      obtain ⟨S', hrec, SS'⟩ := ih _ _ _ _ _ _ _ SS1 rfl hlt2 (hmk2 p rfl) h
+      replay_goal
+      rw [SS1.line]
+      exact ⟨_, hrec, SS'⟩
+
+theorem relocKind_paragraph (σ : Nat → Nat) (k : Kind) : (relocKind σ k = .paragraph) ↔ (k = .paragraph) := by
+  cases k <;> simp [relocKind]
+
+theorem relocKind_listItem (σ : Nat → Nat) (k : Kind) : (relocKind σ k = .listItem) ↔ (k = .listItem) := by
+  cases k <;> simp [relocKind]
+
+theorem markTight_reloc (σ : Nat → Nat) : ∀ cs : List BNode,
+    markTight (relocNodes σ cs) = relocNodes σ (markTight cs)
+  | [] => rfl
+  | n :: r => by
+    have ih := markTight_reloc σ r
+    obtain ⟨k, rg, cs⟩ := n
+    simp only [relocNodes, markTight, relocNode, relocKind_paragraph]
+    split
+    · rw [ih, relocNodes_append]
+    · rw [ih]; simp [relocNodes, relocNode]
+
+theorem tightenItems_reloc (σ : Nat → Nat) : ∀ cs : List BNode,
+    tightenItems (relocNodes σ cs) = Except.map (relocNodes σ) (tightenItems cs)
+  | [] => rfl
+  | n :: r => by
+    have ih := tightenItems_reloc σ r
+    obtain ⟨k, rg, cs⟩ := n
+    simp only [relocNodes, tightenItems, relocNode, ne_eq, relocKind_listItem]
+    split
+    · rfl
+    · rw [ih]
+      cases tightenItems r with
+      | error e => rfl
+      | ok r' =>
+        simp only [Except.map, relocNodes, relocNode, markTight_reloc]
+
+/-- the state the list rule iterates on -/
+abbrev nestList (s : BState) (k : Kind) : BState :=
+  { s with nodeKind := k, children := [], level := s.level + 1 }
+
+theorem Sim.nestList {s s' : BState} (S : Sim L s s') (k : Kind) : Sim L (nestList s k) (nestList s' k) :=
+  ⟨S.tbl.of_eq rfl rfl rfl rfl rfl rfl, S.line, S.lineMax, S.tight, S.listIndent, by simp [S.level], .inl rfl,
+    rfl, S.refs⟩
+
+theorem list_sim {tok tok' : Tok} {test test' : Test} (hk : TokSpec tok) (hk' : TokSpec tok')
+    (TK : TokSim L tok tok') (TS : TestSim L test test') {fuel : Nat} {s s' : BState} (S : Sim L s s')
+    (hl : s.line < s.lineMax) {b : Bool} {t : BState} (h : listRule tok test fuel s false = .ok (b, t)) :
+    ∃ t', listRule tok' test' fuel s' false = .ok (b, t') ∧ Sim L t t' := by
+  unfold listRule at h ⊢
+  simp only [S.line, S.tbl.lineIndent, S.sameLook.special, S.tbl.getLine]
+  crack h
+  all_goals (try subst_vars)
+  all_goals (try (replay_goal; exact ⟨_, rfl, S⟩))
+  all_goals (try (have hx := ‹emptyItemCheck _ _ _ = Except.ok true›; simp [emptyItemCheck, pure, Except.pure] at hx))
+  all_goals (
+    have hE := ‹emptyItemCheck _ _ _ = _›
+    simp only [decide_false] at hE
+    have hloop := ‹listLoop _ _ _ _ _ _ _ _ _ _ = _›
+    have htight := ‹(if _ then tightenItems _ else _) = Except.ok _›
+    have hdet := ‹detectMarker _ = _›
+    have hcur := ‹s.getLine s.line = _›
+    have hmap := ‹BState.getMap _ _ _ = _›
+    have hlvl := ‹psub (BState.level _) 1 = _›
+    rename_i wl _ cs _ _ _ _ _ _ _
+    obtain ⟨n, tg, S1⟩ := wl
+    obtain ⟨S1', hloop', SS1⟩ := listLoop_sim hk hk' TK TS _ _ _ _ _ _ _ _ (S.nestList _) rfl hl
+      ⟨_, hcur, detectMarker_marker hdet⟩ hloop
+    simp only [nestList, S.line] at htight hmap hlvl hloop' SS1
+    have htight' : (if tg = true then tightenItems S1'.children else Except.ok S1'.children)
+        = .ok (relocNodes (sigma L) cs) := by
+      rw [SS1.children]
+      split at htight
+      · rw [if_pos ‹_›, tightenItems_reloc, htight]; rfl
+      · rw [if_neg ‹_›]
+        simp [pure, Except.pure] at htight ⊢
+        rw [htight]
+    obtain ⟨hl1, rfl⟩ := psub_ok hlvl
+    have hlvl' : psub S1'.level 1 = .ok (S1'.level - 1) := psub_eq (by rw [SS1.level]; omega)
+    have hmap' := SS1.tbl.getMap s.line
+    replay_goal
+    simp only [Bool.false_and, Bool.false_eq_true, if_false, hloop', ok_bind, htight', hlvl', hmap', hmap, map_ok',
+      ‹psub n 1 = _›]
+    refine ⟨_, rfl, ?_⟩
+    obtain ⟨hfr, _⟩ := listLoop_spec hk TS.pure _ _ _ _ _ _ _ _ _ hloop rfl hl
+    refine ⟨SS1.tbl.of_eq rfl rfl rfl rfl rfl rfl, SS1.line, SS1.lineMax, SS1.tight, SS1.listIndent,
+      by simp [SS1.level]; omega, by simpa using S.nodeKind, ?_, SS1.refs⟩
+    have hk1 : S1.nodeKind ≠ .root := by rw [hfr.nodeKind]; cases ‹Option Nat› <;> simp
+    simp [S.children, relocNodes_append, relocNodes, relocNode, SS1.nodeKind.eq_of_ne_root hk1, hfr.nodeKind,
+      relocKind, sigma2])
+end item
+
+
+
+
+
+
+/-! ### the tokenizers correspond -/
+
+section tok
+variable {L : DLines}
+
+theorem skipEmpty_congr {offs offs' : List LineOffset} (h : ∀ n, Lines.isEmpty offs' n = Lines.isEmpty offs n)
+    (lm line : Nat) : Lines.skipEmptyLines offs' lm line = Lines.skipEmptyLines offs lm line := by
+  fun_induction Lines.skipEmptyLines offs lm line with
+  | case1 line hc ih =>
+    rw [Lines.skipEmptyLines, dif_pos (by rw [h]; exact hc)]
+    exact ih
+  | case2 line hc =>
+    rw [Lines.skipEmptyLines, dif_neg (by rw [h]; exact hc)]
+
+/-- a chain rule on `D` and on the prefixed document -/
+def RunSim (L : DLines) (run run' : RuleId → BState → Bool → Res) : Prop :=
+  ∀ r s s' b t, Sim L s s' → s.line < s.lineMax → IndentOk s → run r s false = .ok (b, t) →
+    ∃ t', run' r s' false = .ok (b, t') ∧ Sim L t t'
+
+theorem runChain_sim {run run' : RuleId → BState → Bool → Res} (hr : RunSpec run) (R : RunSim L run run') :
+    ∀ (chain : List RuleId) (s s' : BState) (b : Bool) (t : BState), Sim L s s' → s.line < s.lineMax →
+      IndentOk s → runChain run chain s false = .ok (b, t) →
+      ∃ t', runChain run' chain s' false = .ok (b, t') ∧ Sim L t t' := by
+  intro chain
+  induction chain with
+  | nil =>
+    intro s s' b t S _ _ h
+    simp [runChain] at h
+    obtain ⟨rfl, rfl⟩ := h
+    exact ⟨s', rfl, S⟩
+  | cons r rs ih =>
+    intro s s' b t S hl hi h
+    simp only [runChain] at h ⊢
+    split at h
+    · cases h
+    · rename_i s1 h1
+      cases h
+      obtain ⟨t', h1', S1⟩ := R _ _ _ _ _ S hl hi h1
+      rw [h1']
+      exact ⟨t', rfl, S1⟩
+    · rename_i s1 h1
+      obtain ⟨t', h1', S1⟩ := R _ _ _ _ _ S hl hi h1
+      have := hr.false_same _ _ _ h1
+      subst this
+      rw [h1']
+      simp only
+      -- the primed state is unchanged as well: it is related to the same `s`; continue with it
+      exact ih _ _ _ _ S1 hl hi h
+
+theorem afterChain_sim {ok : Bool} {s s' t : BState} {prev : Nat} (S : Sim L s s')
+    (h : afterChain ok s prev = .ok t) : ∃ t', afterChain ok s' prev = .ok t' ∧ Sim L t t' := by
+  unfold afterChain at h ⊢
+  simp only [S.line, S.tbl.getLine, S.tbl.off]
+  crack h
+  all_goals (try subst_vars)
+  · replay_goal
+    exact ⟨_, rfl, S⟩
+  · rename_i line hline o hoff
+    have eo := S.tbl.entry_of_off hoff
+    have hb := entry_bounds eo
+    have hsig : sigma L o.firstNonspace = (shiftEntry s.line o).firstNonspace := by
+      rw [sigma_of_entry S.tbl.lines eo hb.1 hb.2]; simp [shiftEntry]
+    replay_goal
+    refine ⟨_, rfl, ?_⟩
+    sim_close S
+    rw [← hsig]
+
+theorem Sim.setLineTight {s s' : BState} (S : Sim L s s') (l : Nat) (tg : Bool) :
+    Sim L { s with line := l, tight := tg } { s' with line := l, tight := tg } :=
+  ⟨S.tbl.of_eq rfl rfl rfl rfl rfl rfl, rfl, S.lineMax, rfl, S.listIndent, S.level, S.nodeKind, S.children, S.refs⟩
+
+theorem tokLoop_sim {cfg cfg' : Cfg} (hc : cfg'.chain = cfg.chain) (hm : cfg'.maxNesting = cfg.maxNesting + 1)
+    {run run' : RuleId → BState → Bool → Res} (hr : RunSpec run) (R : RunSim L run run') :
+    ∀ (fuel : Nat) (he : Bool) (s s' t : BState), Sim L s s' → tokLoop cfg run fuel he s = .ok t →
+      ∃ t', tokLoop cfg' run' fuel he s' = .ok t' ∧ Sim L t t' := by
+  intro fuel
+  induction fuel with
+  | zero => intro he s s' t _ h; simp [tokLoop] at h
+  | succ f ih =>
+    intro he s s' t S h
+    simp only [tokLoop] at h ⊢
+    generalize hl' : Lines.skipEmptyLines s.offs s.lineMax s.line = l' at h
+    have hskip : Lines.skipEmptyLines s'.offs s'.lineMax s'.line = l' := by
+      rw [S.lineMax, S.line, ← hl']
+      exact skipEmpty_congr (fun n => S.tbl.isEmpty n) _ _
+    have hc1 : (s'.line < s'.lineMax) = (s.line < s.lineMax) := by rw [S.line, S.lineMax]
+    have hc2 : (l' ≥ s'.lineMax) = (l' ≥ s.lineMax) := by rw [S.lineMax]
+    have hc3 : (s'.level ≥ cfg'.maxNesting) = (s.level ≥ cfg.maxNesting) := by
+      rw [S.level, hm]; simp
+    simp only [hskip, hc, hc1, hc2, hc3]
+    have Sl := S.setLine l'
+    have hind' := Sl.tbl.lineIndent l'
+    clear hl' hskip
+    crack h
+    · subst_vars
+      replay_goal
+      exact ⟨_, rfl, S⟩
+    · subst_vars
+      replay_goal
+      exact ⟨_, rfl, Sl⟩
+    · subst_vars
+      replay_goal
+      exact ⟨_, rfl, Sl⟩
+    · subst_vars
+      replay_goal
+      refine ⟨_, rfl, ?_⟩
+      exact ⟨S.tbl.of_eq rfl rfl rfl rfl rfl rfl, S.lineMax, S.lineMax, S.tight, S.listIndent, S.level, S.nodeKind,
+        S.children, S.refs⟩
+    all_goals (
+      have hchain := ‹runChain _ _ _ _ = _›
+      have hafter := ‹afterChain _ _ _ = _›
+      have hind := ‹BState.lineIndent _ _ = _›
+      have hpsub := ‹psub _ 1 = _›
+      rename_i w _ s3 _ _ _ _
+      obtain ⟨b, s2⟩ := w
+      obtain ⟨s2', hchain', Sw⟩ := runChain_sim hr R _ _ _ _ _ Sl (by simp only; omega) ⟨_, hind, by omega⟩ hchain
+      obtain ⟨s3', hafter', S3⟩ := afterChain_sim Sw hafter
+      have T3 : Tbl L { s3 with tight := !he } { s3' with tight := !he } := S3.tbl.of_eq rfl rfl rfl rfl rfl rfl
+      have hpsub' := (show psub s3'.line 1 = psub s3.line 1 by rw [S3.line]).trans hpsub
+      have hcA : (s3'.line < s3'.lineMax) = (s3.line < s3.lineMax) := by rw [S3.line, S3.lineMax]
+      have hemp := T3.isEmpty
+      simp only at hchain' hafter'
+      replay_goal
+      simp only [hemp, S3.line]
+      replay_goal)
+    · exact ih _ _ _ _ (by have := S3.setLineTight (s3.line + 1) (!he); simpa using this) h
+    · exact ih _ _ _ _ (by have := S3.setLineTight s3.line (!he); simpa using this) h
+
+/-- the two configurations: the same chain and tables, one more level of nesting allowed -/
+structure CfgRel (cfg cfg' : Cfg) : Prop where
+  chain : cfg'.chain = cfg.chain
+  nesting : cfg'.maxNesting = cfg.maxNesting + 1
+  lookup : cfg'.lookup = cfg.lookup
+  lower : cfg'.L = cfg.L
+  upper : cfg'.U = cfg.U
+
+theorem testRules_sim {cfg cfg' : Cfg} (C : CfgRel cfg cfg') (fuel : Nat) :
+    TestSim L (testRules cfg fuel) (testRules cfg' fuel) :=
+  ⟨testRules_pure cfg fuel, testRules_pure cfg' fuel,
+   fun _ _ S => testRules_same_view cfg cfg' C.chain fuel S.sameLook⟩
+
+theorem runRule_sim {cfg cfg' : Cfg} (C : CfgRel cfg cfg') {tok tok' : Tok} {test test' : Test}
+    (hk : TokSpec tok) (hk' : TokSpec tok') (TK : TokSim L tok tok') (TS : TestSim L test test') (fuel : Nat) :
+    RunSim L (runRule cfg tok test fuel) (runRule cfg' tok' test' fuel) := by
+  intro r s s' b t S hl hi h
+  cases r <;> simp only [runRule] at h ⊢
+  · exact code_sim S h
+  · exact fence_sim S hi h
+  · exact blockquote_sim hk hk' TK TS S h
+  · exact hr_sim S h
+  · exact list_sim hk hk' TK TS S hl h
+  · exact reference_sim ⟨C.lookup, C.lower, C.upper⟩ TS S h
+  · exact heading_sim S h
+  · exact lheading_sim TS S h
+  · exact paragraph_sim TS S h
+
+/-- **the nested tokenizer on the prefixed document simulates the tokenizer on `D`**, for every fuel -/
+theorem tokenize_sim {cfg cfg' : Cfg} (C : CfgRel cfg cfg') :
+    ∀ fuel : Nat, TokSim L (tokenize cfg fuel) (tokenize cfg' fuel) := by
+  intro fuel
+  induction fuel with
+  | zero => intro s s' t _ h; simp [tokenize, engine] at h
+  | succ f ih =>
+    intro s s' t S h
+    simp only [tokenize, engine] at h ⊢
+    have hk := tokenize_tokSpec cfg f
+    have hk' := tokenize_tokSpec cfg' f
+    have TS := testRules_sim (L := L) C f
+    exact tokLoop_sim C.chain C.nesting (runRule_spec hk TS.pure _)
+      (runRule_sim C hk hk' ih TS _) _ _ _ _ _ S h
+end tok
+
+
+
+/-! ### the line tables of `D` and of the prefixed document -/
+
+open MdIt.Lines (IsTerminator)
+
+theorem lineOf_append {l x : List Char} (hl : NoTerm l)
+    (hx : x = [] ∨ ∃ c r, x = c :: r ∧ (c = '\n' ∨ c = '\r')) :
+    Lines.lineOf (l ++ x) = l ∧ Lines.afterLine (l ++ x) = x := by
+  induction l with
+  | nil =>
+    rcases hx with rfl | ⟨c, r, rfl, hc⟩
+    · simp [Lines.lineOf, Lines.afterLine]
+    · have : Lines.notTerm c = false := by
+        rcases hc with rfl | rfl <;> decide
+      simp [Lines.lineOf, Lines.afterLine, List.takeWhile, List.dropWhile, this]
+  | cons c r ih =>
+    have hc := hl c (by simp)
+    have hn : Lines.notTerm c = true := Lines.notTerm_iff.mpr hc
+    have := ih hl.tail
+    simp only [Lines.lineOf, Lines.afterLine, List.cons_append, List.takeWhile, List.dropWhile, hn] at this ⊢
+    simp [this.1, this.2]
+
+theorem termOf_terminator {t x : List Char} (ht : IsTerminator t)
+    (hx : ∀ c r, x = c :: r → c ≠ '\n') : Lines.termOf (t ++ x) = (t, x) := by
+  rcases ht with rfl | rfl | rfl
+  · simp [Lines.termOf]
+  · simp only [Lines.termOf, List.cons_append, List.nil_append]
+    rw [if_neg]
+    rintro ⟨_, h⟩
+    cases x with
+    | nil => simp at h
+    | cons c r => simp at h; exact hx c r rfl h
+  · simp [Lines.termOf]
+
+/-- the shape `Lines.linesT` guarantees (`linesT_shape`) -/
+def LShape (L : DLines) : Prop :=
+  ∀ (i : Nat) (lt : List Char × List Char), L[i]? = some lt →
+    NoTerm lt.1 ∧ (IsTerminator lt.2 ∨ (lt.2 = [] ∧ i + 1 = L.length))
+
+theorem LShape.tail {lt : List Char × List Char} {r : DLines} (h : LShape (lt :: r)) : LShape r := by
+  intro i x hx
+  have := h (i + 1) x (by simpa using hx)
+  simpa using this
+
+/-- a list of non-empty lines of that shape is the line decomposition of its concatenation -/
+theorem linesT_flat_of_shape : ∀ (L : DLines), L ≠ [] → LShape L → (∀ lt ∈ L, lt.1 ≠ []) →
+    Lines.linesT (Lines.flat L) = L
+  | [], h, _, _ => absurd rfl h
+  | [lt], _, hs, _ => by
+    obtain ⟨hn, ht⟩ := hs 0 lt rfl
+    have hx : lt.2 = [] ∨ ∃ c r, lt.2 = c :: r ∧ (c = '\n' ∨ c = '\r') := by
+      rcases ht with ht | ⟨ht, _⟩
+      · right
+        rcases ht with h | h | h <;> simp [h]
+      · left; exact ht
+    have := lineOf_append hn hx
+    rw [Lines.linesT]
+    simp only [Lines.flat_cons, Lines.flat_nil, List.append_nil, this.1, this.2]
+    have hterm : (Lines.termOf lt.2) = (lt.2, []) := by
+      rcases ht with ht | ⟨ht, _⟩
+      · have := termOf_terminator (x := []) ht (by simp)
+        simpa using this
+      · rw [ht]; rfl
+    simp [hterm]
+  | lt :: lt2 :: r, _, hs, hne => by
+    obtain ⟨hn, ht⟩ := hs 0 lt rfl
+    have ht' : IsTerminator lt.2 := by
+      rcases ht with ht | ⟨_, h⟩
+      · exact ht
+      · simp at h
+    have ih := linesT_flat_of_shape (lt2 :: r) (by simp) hs.tail (fun x hx => hne x (List.mem_cons_of_mem _ hx))
+    -- what follows the terminator starts with a character of `lt2`'s (non-empty) line
+    obtain ⟨hn2, _⟩ := hs 1 lt2 rfl
+    have hne2 := hne lt2 (by simp)
+    obtain ⟨c2, r2, hc2⟩ : ∃ c r, lt2.1 = c :: r := by
+      cases h : lt2.1 with
+      | nil => exact absurd h hne2
+      | cons c r => exact ⟨c, r, rfl⟩
+    have hc2n := hn2 c2 (by rw [hc2]; simp)
+    have hX : ∀ c r', Lines.flat (lt2 :: r) = c :: r' → c ≠ '\n' := by
+      intro c r' h
+      simp only [Lines.flat_cons, hc2, List.cons_append, List.cons.injEq] at h
+      rw [← h.1]; exact hc2n.1
+    have hXne : Lines.flat (lt2 :: r) ≠ [] := by simp [hc2]
+    have hx : (lt.2 ++ Lines.flat (lt2 :: r)) = [] ∨
+        ∃ c r', lt.2 ++ Lines.flat (lt2 :: r) = c :: r' ∧ (c = '\n' ∨ c = '\r') := by
+      right
+      rcases ht' with h | h | h <;> simp [h]
+    have hla := lineOf_append (x := lt.2 ++ Lines.flat (lt2 :: r)) hn hx
+    have hterm := termOf_terminator ht' hX
+    rw [Lines.linesT]
+    simp only [Lines.flat_cons] at hla hterm ih hXne ⊢
+    rw [show lt.1 ++ lt.2 ++ (lt2.1 ++ lt2.2 ++ Lines.flat r) = lt.1 ++ (lt.2 ++ (lt2.1 ++ lt2.2 ++ Lines.flat r)) by simp,
+      hla.1, hla.2, hterm]
+    simp only [hXne, if_false, ih]
+
+section outer
+variable {L : DLines}
+
+theorem prefixLines_getElem (L : DLines) (i : Nat) (h : i < L.length) :
+    (prefixLines L)[i]'(by rw [prefixLines_length]; exact h) = ('>' :: ' ' :: L[i].1, L[i].2) := by
+  simp [prefixLines]
+
+/-- the entry `generate_caches` makes for line `i` of a document given by its lines -/
+def freshEntry (L : DLines) (i : Nat) : LineOffset :=
+  match L[i]? with
+  | some lt => mkOff (startOf L i) lt
+  | none => ⟨0, 0, 0, 0⟩
+
+theorem offsetsOf_entry (L : DLines) (i : Nat) (h : i < L.length) :
+    (Lines.offsetsOf 0 L)[i]? = some (freshEntry L i) := by
+  have hlen : i < (Lines.offsetsOf 0 L).length := by simpa using h
+  obtain ⟨A, lt, B, hL, hA, ho⟩ := Lines.offsetsOf_getElem? (List.getElem?_eq_getElem hlen)
+  rw [List.getElem?_eq_getElem hlen, ho]
+  have hA' : A = L.take i := by
+    rw [hL, ← hA]; simp
+  have hlt : L[i]? = some lt := by rw [hL, ← hA]; simp
+  simp [freshEntry, hlt, startOf, hA']
+
+/-- the fresh entry of a line, shifted, is the entry `quote_view` computes for the prefixed line -/
+theorem shift_fresh (hL : LinesOk L) (i : Nat) (h : i < L.length) :
+    shiftEntry i (freshEntry L i)
+      = ⟨startOf (prefixLines L) i, startOf (prefixLines L) i + 2 + Lines.byteLen L[i].1,
+         startOf (prefixLines L) i + 2 + (lead L[i].1).length, ((lead L[i].1).length : Int)⟩ := by
+  have htab : '\t' ∉ lead L[i].1 := fun hc =>
+    hL.tabfree L[i] (List.getElem_mem h) ((List.takeWhile_sublist _).subset hc)
+  simp only [freshEntry, List.getElem?_eq_getElem h, shiftEntry, mkOff, startOf_prefix L i (by omega),
+    indentWidth_tabfree _ htab]
+  congr 1 <;> omega
+
+theorem entryOk_fresh (hL : LinesOk L) (i : Nat) (h : i < L.length) : EntryOk L i (freshEntry L i) := by
+  have htab : '\t' ∉ lead L[i].1 := fun hc =>
+    hL.tabfree L[i] (List.getElem_mem h) ((List.takeWhile_sublist _).subset hc)
+  refine ⟨L[i].1, L[i].2, lead L[i].1, L[i].1.dropWhile Lines.isBlank, by simp [List.getElem?_eq_getElem h],
+    (Lines.lead_append_rest _).symm, ?_, ?_, ?_, ?_⟩
+  · simp [freshEntry, List.getElem?_eq_getElem h, mkOff]
+  · simp [freshEntry, List.getElem?_eq_getElem h, mkOff, Lines.byteLen_lead]
+  · have := congrArg Lines.byteLen (Lines.lead_append_rest L[i].1)
+    simp only [Lines.byteLen_append] at this
+    simp [freshEntry, List.getElem?_eq_getElem h, mkOff]
+    omega
+  · simp [freshEntry, List.getElem?_eq_getElem h, mkOff, indentWidth_tabfree _ htab]
+
+/-- the state's table holds the fresh entries of the prefixed document from line `m` on -/
+structure FreshFrom (L : DLines) (m : Nat) (s' : BState) : Prop where
+  src : s'.src = Lines.flat (prefixLines L)
+  lineMax : s'.lineMax = L.length
+  blk : s'.blkIndent = 0
+  len : s'.offs.length = L.length
+  fresh : ∀ i, m ≤ i → i < L.length → s'.offs[i]? = some (freshEntry (prefixLines L) i)
+
+/-- reading line `i` of the prefixed document through its fresh entry -/
+theorem fresh_prefixed_reads (hL : LinesOk L) {m : Nat} {s' : BState} (F : FreshFrom L m s') {i : Nat}
+    (hmi : m ≤ i) (hi : i < L.length) :
+    s'.lineIndent i = .ok 0 ∧ s'.getLine i = .ok ('>' :: ' ' :: L[i].1) ∧
+    s'.off i = .ok (freshEntry (prefixLines L) i) ∧
+    ∃ le, bqRewrite s'.src (freshEntry (prefixLines L) i) (' ' :: L[i].1) = .ok (shiftEntry i (freshEntry L i), le) := by
+  have hi' : i < (prefixLines L).length := by rw [prefixLines_length]; exact hi
+  have ho := F.fresh i hmi hi
+  have hent : freshEntry (prefixLines L) i = mkOff (startOf (prefixLines L) i) ('>' :: ' ' :: L[i].1, L[i].2) := by
+    simp [freshEntry, List.getElem?_eq_getElem hi', prefixLines_getElem L i hi]
+  have hsplit := flat_split (prefixLines L) i hi'
+  rw [prefixLines_getElem L i hi] at hsplit
+  simp only at hsplit
+  have hview := Lines.mkOff_view (Lines.flat ((prefixLines L).take i)) ('>' :: ' ' :: L[i].1)
+    (L[i].2 ++ Lines.flat ((prefixLines L).drop (i + 1))) L[i].2
+  rw [← hsplit] at hview
+  have hlead : lead ('>' :: ' ' :: L[i].1) = [] := lead_cons_nonblank _ (by decide)
+  have hdrop : ('>' :: ' ' :: L[i].1).dropWhile Lines.isBlank = '>' :: ' ' :: L[i].1 := by
+    simp [List.dropWhile, show Lines.isBlank '>' = false by decide]
+  simp only [Lines.view, hlead, hdrop, Prod.mk.injEq] at hview
+  have hst : Lines.byteLen (Lines.flat ((prefixLines L).take i)) = startOf (prefixLines L) i := rfl
+  rw [hst, ← hent] at hview
+  have htab : '\t' ∉ L[i].1 := hL.tabfree L[i] (List.getElem_mem hi)
+  have hq := quote_view (Lines.flat ((prefixLines L).take i)) L[i].1
+    (L[i].2 ++ Lines.flat ((prefixLines L).drop (i + 1))) L[i].2 htab
+  rw [← hsplit, hst, ← hent] at hq
+  refine ⟨?_, ?_, ?_, (lead L[i].1).length == Lines.byteLen L[i].1, ?_⟩
+  · simp only [BState.lineIndent, Lines.lineIndent, ho, F.blk, liftL_ok', hview.2.2]
+    simp [Lines.indentWidth, Lines.widthFrom]
+  · have := hview.2.1
+    unfold Lines.lineText at this
+    simp only [BState.getLine, Lines.getLine, ho, F.src, this, liftL_ok']
+  · simp [BState.off, ho]
+  · rw [F.src, hq, shift_fresh hL i hi]
+
+/-- the block-quote scan over the prefixed document takes every line: from line `m` on, each fresh
+    entry becomes the shifted fresh entry of the same line of `D` -/
+theorem bqScan_prefixed (hL : LinesOk L) {test' : Test} :
+    ∀ (d m fuel : Nat) (s' : BState) (old : List LineOffset) (le : Bool), m + d = L.length → d < fuel →
+      FreshFrom L m s' →
+      ∃ old' S', bqScan test' fuel s' m old le = .ok (L.length, old', S') ∧ SameBut s' S' ∧
+        (∀ i, i < m → S'.offs[i]? = s'.offs[i]?) ∧
+        (∀ i, m ≤ i → i < L.length → S'.offs[i]? = some (shiftEntry i (freshEntry L i))) := by
+  intro d
+  induction d with
+  | zero =>
+    intro m fuel s' old le hm hf F
+    obtain ⟨f, rfl⟩ : ∃ f, fuel = f + 1 := ⟨fuel - 1, by omega⟩
+    refine ⟨old, s', ?_, SameBut.refl _, fun _ _ => rfl, fun i h1 h2 => by omega⟩
+    simp only [bqScan]
+    rw [if_pos (by rw [F.lineMax]; omega)]
+    rw [show m = L.length by omega]
+  | succ d ih =>
+    intro m fuel s' old le hm hf F
+    obtain ⟨f, rfl⟩ : ∃ f, fuel = f + 1 := ⟨fuel - 1, by omega⟩
+    have hmL : m < L.length := by omega
+    obtain ⟨hind, hline, hoff, le₂, hrw⟩ := fresh_prefixed_reads hL F (Nat.le_refl m) hmL
+    have hmo : m < s'.offs.length := by rw [F.len]; exact hmL
+    -- the state after rewriting line `m`
+    have F2 : FreshFrom L (m + 1) { s' with offs := s'.offs.set m (shiftEntry m (freshEntry L m)) } :=
+      ⟨F.src, F.lineMax, F.blk, by simp [F.len], fun i h1 h2 => by
+        simp only [List.getElem?_set]
+        rw [if_neg (by omega)]
+        exact F.fresh i (by omega) h2⟩
+    obtain ⟨old', S', hrec, hsb, hlt, hge⟩ := ih (m + 1) f _ (old ++ [freshEntry (prefixLines L) m]) le₂
+      (by omega) (by omega) F2
+    refine ⟨old', S', ?_, ?_, ?_, ?_⟩
+    · simp only [bqScan]
+      rw [if_neg (by rw [F.lineMax]; omega)]
+      simp only [hind, hline, ok_bind, hoff, hrw, BState.setOff, hmo, if_true]
+      first | exact hrec | (rw [if_pos (by simp)]; exact hrec) | (simp only [ok_bind]; exact hrec)
+    · exact ⟨hsb.src, hsb.blkIndent, hsb.lineMax, hsb.tight, hsb.listIndent, hsb.level, hsb.nodeKind,
+        hsb.children, hsb.refs, by rw [hsb.len]; simp⟩
+    · intro i hi
+      rw [hlt i (by omega)]
+      simp only [List.getElem?_set]
+      rw [if_neg (by omega)]
+    · intro i h1 h2
+      by_cases hmi : i = m
+      · subst hmi
+        rw [hlt i (by omega)]
+        simp [hmo]
+      · exact hge i (by omega) h2
+end outer
+
+/-! ### the outer run on the prefixed document -/
+
+/-- the rules that may stand in front of the block-quote rule in the chain -/
+def frontOk : RuleId → Bool
+  | .code | .fence | .hr | .list | .reference | .heading => true
+  | _ => false
+
+/-- a front rule rejects a line that starts with `>` at indent 0 (outside any list) -/
+theorem front_rejects {cfg : Cfg} {tok : Tok} {test : Test} {fuel : Nat} {r : RuleId} (hr : frontOk r = true)
+    {s : BState} {rest : List Char} (hind : s.lineIndent s.line = .ok 0)
+    (hline : s.getLine s.line = .ok ('>' :: rest)) (hli : s.listIndent = none) :
+    runRule cfg tok test fuel r s false = .ok (false, s) := by
+  cases r <;> simp [frontOk] at hr
+  · simp [runRule, codeRule, hind, pure, Except.pure]
+  · simp [runRule, fenceRule, hind, hline, pure, Except.pure]
+  · simp [runRule, hrRule, hind, hline, pure, Except.pure]
+  · simp [runRule, listRule, hind, hline, listSpecial, hli, detectMarker, skipOrdered, skipBullet, isDigit,
+      pure, Except.pure]
+  · simp [runRule, referenceRule, hind, hline, pure, Except.pure]
+  · simp [runRule, headingRule, hind, hline, pure, Except.pure]
+
+theorem runChain_front {run : RuleId → BState → Bool → Res} {s : BState}
+    (hrej : ∀ r, frontOk r = true → run r s false = .ok (false, s)) :
+    ∀ (pre : List RuleId) (post : List RuleId), (∀ r ∈ pre, frontOk r = true) →
+      runChain run (pre ++ post) s false = runChain run post s false := by
+  intro pre
+  induction pre with
+  | nil => intro post _; rfl
+  | cons r rs ih =>
+    intro post h
+    simp only [List.cons_append, runChain, hrej r (h r (by simp))]
+    exact ih post (fun x hx => h x (List.mem_cons_of_mem _ hx))
+
+/-- the entries `generate_caches` makes have a non-negative indent -/
+theorem splitLines_indent_nonneg (D : List Char) {i : Nat} {o : LineOffset}
+    (h : (Lines.splitLines D)[i]? = some o) : 0 ≤ o.indentNonspace := by
+  obtain ⟨A, lt, B, _, _, rfl, _⟩ := Lines.split_entry h
+  simp [mkOff]
+
+/-- at the top level the tokenizer consumes every line -/
+theorem tokenize_fresh_end {cfg : Cfg} {F : Nat} {D : List Char} {k : Kind} {refs : Refs.RefMap} {t : BState}
+    (h : tokenize cfg F (BState.fresh D k refs) = .ok t) : t.line = (Lines.splitLines D).length := by
+  obtain ⟨_, hup, _, hfr⟩ := tokenize_progress h
+  have hle := hup (tableOk_fresh D k refs) (by simp [BState.fresh])
+  have hlm : t.lineMax = (Lines.splitLines D).length := by rw [hfr.lineMax]; rfl
+  rcases tokenize_exit h with hx | ⟨i, hi, hneg⟩
+  · simp only [BState.fresh] at hle; omega
+  · exfalso
+    unfold BState.lineIndent Lines.lineIndent at hi
+    rw [hfr.offs, hfr.blkIndent] at hi
+    simp only [BState.fresh] at hi
+    cases ho : (Lines.splitLines D)[t.line]? with
+    | none => simp [ho, liftL] at hi
+    | some o =>
+      have := splitLines_indent_nonneg D ho
+      simp [ho, liftL] at hi
+      omega
+
+/-- the document with `"> "` in front of every line (blank lines included; terminators kept) -/
+def prefixQuote (D : List Char) : List Char := Lines.flat (prefixLines (Lines.linesT D))
+
+theorem lshape_linesT (D : List Char) : LShape (Lines.linesT D) :=
+  fun i lt h => Lines.linesT_shape D i lt h
+
+theorem linesOk_linesT (D : List Char) (htab : '\t' ∉ D) (hsize : Lines.byteLen D + 8 < 2147483648) :
+    LinesOk (Lines.linesT D) := by
+  have hflat := Lines.linesT_flat D
+  refine ⟨?_, ?_, ?_, by rw [hflat]; exact hsize⟩
+  · intro lt hlt
+    obtain ⟨i, hi⟩ := List.getElem?_of_mem hlt
+    exact (lshape_linesT D i lt hi).1
+  · intro lt hlt hc
+    apply htab
+    rw [← hflat]
+    simp only [Lines.flat, List.mem_flatMap]
+    exact ⟨lt, hlt, by simp [hc]⟩
+  · intro i hi
+    have hlt : i < (Lines.linesT D).length := by omega
+    have := (lshape_linesT D i _ (List.getElem?_eq_getElem hlt)).2
+    rcases this with h | ⟨_, h⟩
+    · rcases h.byteLen with h | h <;> omega
+    · omega
+
+theorem lshape_prefix {L : DLines} (h : LShape L) : LShape (prefixLines L) := by
+  intro i lt hi
+  simp only [prefixLines, List.getElem?_map] at hi
+  cases hL : L[i]? with
+  | none => simp [hL] at hi
+  | some x =>
+    simp only [hL, Option.map_some, Option.some.injEq] at hi
+    subst hi
+    obtain ⟨h1, h2⟩ := h i x hL
+    refine ⟨?_, by simpa [prefixLines] using h2⟩
+    intro c hc
+    simp at hc
+    rcases hc with rfl | rfl | hc
+    · decide
+    · decide
+    · exact h1 c hc
+
+theorem linesT_prefixQuote (D : List Char) :
+    Lines.linesT (prefixQuote D) = prefixLines (Lines.linesT D) := by
+  unfold prefixQuote
+  apply linesT_flat_of_shape
+  · have := Lines.linesT_ne_nil D
+    simp [prefixLines, this]
+  · exact lshape_prefix (lshape_linesT D)
+  · intro lt hlt
+    simp only [prefixLines, List.mem_map] at hlt
+    obtain ⟨x, _, rfl⟩ := hlt
+    simp
+
+theorem splitLines_prefixQuote (D : List Char) :
+    Lines.splitLines (prefixQuote D) = Lines.offsetsOf 0 (prefixLines (Lines.linesT D)) := by
+  rw [Lines.splitLines_eq, linesT_prefixQuote]
+
+theorem byteLen_prefixQuote (D : List Char) :
+    Lines.byteLen (prefixQuote D) = Lines.byteLen D + 2 * (Lines.linesT D).length := by
+  have h := startOf_prefix (Lines.linesT D) (Lines.linesT D).length (Nat.le_refl _)
+  unfold startOf at h
+  rw [List.take_of_length_le (by rw [prefixLines_length]; exact Nat.le_refl _), List.take_of_length_le (Nat.le_refl _),
+    Lines.linesT_flat] at h
+  exact h
+
+/-- the block-quote rule on the prefixed document, given the run on `D` -/
+theorem blockquote_on_prefixed {cfg cfg' : Cfg} (C : CfgRel cfg cfg') (D : List Char) (htab : '\t' ∉ D)
+    (hsize : Lines.byteLen D + 8 < 2147483648) {G : Nat} (hG : (Lines.linesT D).length < G + 1) {t : BState}
+    (ht : tokenize cfg G (BState.fresh D .root []) = .ok t) :
+    ∃ (t1 : BState) (r : Nat × Nat),
+      blockquoteRule (tokenize cfg' G) (testRules cfg' G) (G + 1) (BState.fresh (prefixQuote D) .root []) false
+        = .ok (true, t1) ∧
+      t1.line = (Lines.linesT D).length ∧ t1.lineMax = (Lines.linesT D).length ∧ t1.nodeKind = .root ∧
+      t1.refs = t.refs ∧
+      t1.children = [⟨.blockquote, some r, relocNodes (sigma (Lines.linesT D)) t.children⟩] ∧
+      Lines.getMap (Lines.splitLines (prefixQuote D)) 0 ((Lines.linesT D).length - 1) = .ok r := by
+  obtain ⟨L, hLdef⟩ : ∃ L, L = Lines.linesT D := ⟨_, rfl⟩
+  rw [← hLdef] at hG ⊢
+  have hL : LinesOk L := by rw [hLdef]; exact linesOk_linesT D htab hsize
+  have hflat : Lines.flat L = D := by rw [hLdef]; exact Lines.linesT_flat D
+  have hn1 : 1 ≤ L.length := by
+    have := Lines.linesT_ne_nil D
+    rw [← hLdef] at this
+    cases L with
+    | nil => exact absurd rfl this
+    | cons a b => simp
+  obtain ⟨s0, hs0⟩ : ∃ s0, s0 = BState.fresh D .root [] := ⟨_, rfl⟩
+  obtain ⟨s0', hs0'⟩ : ∃ s0', s0' = BState.fresh (prefixQuote D) .root [] := ⟨_, rfl⟩
+  rw [← hs0] at ht
+  rw [← hs0']
+  -- the two fresh tables
+  have hoffs0 : s0.offs = Lines.offsetsOf 0 L := by rw [hs0, hLdef]; exact Lines.splitLines_eq D
+  have hoffs0' : s0'.offs = Lines.offsetsOf 0 (prefixLines L) := by
+    rw [hs0', hLdef]; exact splitLines_prefixQuote D
+  have hlen0 : s0.offs.length = L.length := by rw [hoffs0]; simp
+  have hlen0' : s0'.offs.length = L.length := by rw [hoffs0']; simp [prefixLines_length]
+  have hlm0 : s0.lineMax = L.length := by rw [← hlen0, hs0]; rfl
+  have F0 : FreshFrom L 0 s0' :=
+    ⟨by rw [hs0', hLdef]; rfl, by rw [← hlen0', hs0']; rfl, by rw [hs0']; rfl, hlen0', fun i _ hi => by
+      rw [hoffs0']; exact offsetsOf_entry _ i (by rw [prefixLines_length]; exact hi)⟩
+  -- the outer scan
+  obtain ⟨old', S1', hscan, hsb, _, hge⟩ := bqScan_prefixed hL (test' := testRules cfg' G) L.length 0 (G + 1) s0' []
+    false (by omega) hG F0
+  -- the simulation
+  have hq : QRel L s0.offs S1'.offs := by
+    refine ⟨hlen0, ?_, ?_⟩
+    · intro i o ho
+      rw [hoffs0] at ho
+      have hi : i < L.length := by
+        have := (List.getElem?_eq_some_iff.mp ho).1; simpa using this
+      rw [offsetsOf_entry L i hi] at ho
+      cases ho
+      exact entryOk_fresh hL i hi
+    · intro i
+      by_cases hi : i < L.length
+      · rw [hge i (Nat.zero_le _) hi, hoffs0, offsetsOf_entry L i hi]; rfl
+      · have h1 : S1'.offs[i]? = none := by
+          apply List.getElem?_eq_none; rw [hsb.len, hlen0']; omega
+        have h2 : s0.offs[i]? = none := by
+          apply List.getElem?_eq_none; rw [hlen0]; omega
+        rw [h1, h2]; rfl
+  have S0 : Sim L s0 (nestBq S1' 0 L.length) := by
+    refine ⟨⟨hL, by rw [hs0, hflat]; rfl, by simp only [nestBq]; rw [hsb.src]; exact F0.src, hq,
+      by rw [hs0]; rfl, by rw [hs0]; exact Nat.zero_le _⟩, by rw [hs0]; rfl, ?_, ?_, ?_, ?_, .inr ⟨by rw [hs0]; rfl, rfl⟩,
+      by rw [hs0]; rfl, ?_⟩
+    · exact hlm0.symm
+    · simp only [nestBq]; rw [hsb.tight, hs0', hs0]; rfl
+    · simp only [nestBq]; rw [hsb.listIndent, hs0', hs0]; rfl
+    · simp only [nestBq]; rw [hsb.level, hs0', hs0]; rfl
+    · simp only [nestBq]; rw [hsb.refs, hs0', hs0]; rfl
+  obtain ⟨t', htok', St⟩ := tokenize_sim (L := L) C G _ _ _ S0 ht
+  -- reading line 0
+  obtain ⟨hind0, hline0, _, _⟩ := fresh_prefixed_reads hL F0 (Nat.le_refl 0) (by omega)
+  have hline00 : s0'.line = 0 := by rw [hs0']; rfl
+  -- levels
+  have hfrt := (tokenize_spec cfg G _ _ ht).frame
+  have hfrt' := (tokenize_tokSpec cfg' G).frame _ _ htok'
+  have hlvl : psub t'.level 1 = .ok (t'.level - 1) := psub_eq (by rw [St.level]; omega)
+  -- the table is restored
+  obtain ⟨_, _, _, _, _, add, hadd, hrest⟩ := bqScan_spec (testRules_pure cfg' G) _ _ _ _ _ _ _ _ hscan
+  simp only [List.nil_append] at hadd
+  have hrest' : restoreOffs t'.offs 0 old' = .ok s0'.offs := by
+    rw [hfrt'.offs, hadd]; exact hrest
+  -- the lines consumed
+  have htl : t.line = L.length := by
+    have h1 := tokenize_fresh_end (cfg := cfg) (F := G) (D := D) (k := .root) (refs := []) (t := t) (by rw [← hs0]; exact ht)
+    rw [h1, ← hlen0, hs0]; rfl
+  have hpl : psub t'.line 1 = .ok (L.length - 1) := by
+    rw [St.line, htl]; exact psub_eq hn1
+  -- the range
+  obtain ⟨r, hr0⟩ : ∃ r, Lines.getMap s0'.offs 0 (L.length - 1) = .ok r := by
+    have h0 : 0 < s0'.offs.length := by omega
+    have h1 : L.length - 1 < s0'.offs.length := by omega
+    refine ⟨(s0'.offs[0].firstNonspace, s0'.offs[L.length - 1].lineEnd), ?_⟩
+    simp [Lines.getMap, List.getElem?_eq_getElem h0, List.getElem?_eq_getElem h1]
+  have hr : BState.getMap (finBq t' S1' s0'.offs) 0 (L.length - 1) = .ok r := by
+    simp [BState.getMap, finBq, hr0, liftL]
+  have hrule : blockquoteRule (tokenize cfg' G) (testRules cfg' G) (G + 1) s0' false = .ok (true,
+      { finBq t' S1' s0'.offs with nodeKind := S1'.nodeKind, children := S1'.children ++ [⟨t'.nodeKind, some r, t'.children⟩] }) := by
+    clear hs0' hLdef hs0 hadd hrest hoffs0' hoffs0
+    unfold blockquoteRule
+    simp only [hline00, hind0, hline0]
+    replay_goal
+    simp
+  refine ⟨_, r, hrule, ?_, ?_, ?_, ?_, ?_, by rw [← hr0, hs0']; rfl⟩
+  · simp [St.line, htl]
+  · simp [hsb.lineMax, F0.lineMax]
+  · simp [hsb.nodeKind, hs0']; rfl
+  · simp [St.refs]
+  · simp [hsb.children, hs0', St.children, hfrt'.nodeKind]
+    rfl
+
+/-- what `sigma` does, in terms of the two documents: byte `x` of line `i` of `D` (the position of the
+    line's end included) lands on byte `2 + x` of line `i` of the prefixed document -/
+theorem sigma_spec (D : List Char) (htab : '\t' ∉ D) (hsize : Lines.byteLen D + 8 < 2147483648) {i : Nat}
+    (h : i < (Lines.linesT D).length) {x : Nat} (hx : x ≤ Lines.byteLen (Lines.linesT D)[i].1) :
+    sigma (Lines.linesT D) (startOf (Lines.linesT D) i + x) = startOf (prefixLines (Lines.linesT D)) i + 2 + x := by
+  rw [sigma_in_line (linesOk_linesT D htab hsize) h hx, startOf_prefix _ _ (Nat.le_of_lt h)]
+
+/-- one iteration of the tokenizer loop in which a rule consumes everything up to `line_max` -/
+theorem tokLoop_one {cfg : Cfg} {run : RuleId → BState → Bool → Res} {fuel : Nat} {he : Bool} {s t1 : BState}
+    (hlt : s.line < s.lineMax) (hne : s.isEmpty s.line = false) (hind : s.lineIndent s.line = .ok 0)
+    (hlvl : s.level < cfg.maxNesting) (hrun : runChain run cfg.chain s false = .ok (true, t1))
+    (h1 : s.line < t1.line) (h2 : t1.lineMax ≤ t1.line) :
+    tokLoop cfg run (fuel + 2) he s = .ok { t1 with tight := !he } := by
+  have hskip : Lines.skipEmptyLines s.offs s.lineMax s.line = s.line := (skipEmpty_spec _ _ _).2.2.1 hne
+  have hs : { s with line := Lines.skipEmptyLines s.offs s.lineMax s.line } = s := by rw [hskip]
+  have hp : psub t1.line 1 = .ok (t1.line - 1) := psub_eq (by omega)
+  rw [tokLoop, hs]
+  simp only [hlt, not_true_eq_false, if_false, hind, ok_bind, hrun, afterChain, if_true, h1, pure, Except.pure, hp]
+  rw [if_neg (by omega), if_neg (by decide), if_neg (by omega), if_neg (fun h => by omega), tokLoop, if_pos (by simp only; omega)]
+
+/-- **C06, block-quote half, whole document.**  `D` a tab-free document (shorter than 2 GiB), the chain
+    of `cfg` contains the block-quote rule behind rules of `frontOk` only (code, fence, hr, list,
+    reference, heading in any order and selection — in particular the shipped order); whatever may
+    follow it.  If the block parser accepts `D`, then with one more level of nesting allowed it parses
+    `"> "`-prefixed `D` to a root with exactly one child, a block quote, whose children are the
+    children of `D`'s root with every position moved by the bytes inserted in front of it (`sigma`),
+    and the reference definitions collected are the same. -/
+theorem quote_commutes (cfg : Cfg) (D : List Char) (htab : '\t' ∉ D) (hsize : Lines.byteLen D + 8 < 2147483648)
+    (pre post : List RuleId) (hchain : cfg.chain = pre ++ .blockquote :: post)
+    (hpre : ∀ r ∈ pre, frontOk r = true) {root : BNode} {refs : Refs.RefMap}
+    (h : parseBlocks cfg D = .ok (root, refs)) :
+    ∃ r, Lines.getMap (Lines.splitLines (prefixQuote D)) 0 ((Lines.linesT D).length - 1) = .ok r ∧
+      parseBlocks { cfg with maxNesting := cfg.maxNesting + 1 } (prefixQuote D) =
+      .ok (⟨.root, some (0, Lines.byteLen (prefixQuote D)),
+            [⟨.blockquote, some r, relocNodes (sigma (Lines.linesT D)) root.children⟩]⟩, refs) := by
+  obtain ⟨cfg', hcfg'⟩ : ∃ c, c = { cfg with maxNesting := cfg.maxNesting + 1 } := ⟨_, rfl⟩
+  have C : CfgRel cfg cfg' := by subst hcfg'; exact ⟨rfl, rfl, rfl, rfl, rfl⟩
+  rw [← hcfg']
+  unfold parseBlocks at h
+  cases htk : tokenize cfg (fuelFor cfg D) (BState.fresh D .root []) with
+  | error e => rw [htk] at h; cases h
+  | ok s =>
+    rw [htk] at h
+    simp only [Except.ok.injEq, Prod.mk.injEq] at h
+    obtain ⟨rfl, rfl⟩ := h
+    have hn : (Lines.splitLines D).length = (Lines.linesT D).length := by rw [Lines.splitLines_eq]; simp
+    have hn' : (Lines.splitLines (prefixQuote D)).length = (Lines.linesT D).length := by
+      rw [splitLines_prefixQuote]; simp [prefixLines_length]
+    have hn1 : 1 ≤ (Lines.linesT D).length := by
+      have := Lines.linesT_ne_nil D
+      cases hL : Lines.linesT D with
+      | nil => exact absurd hL this
+      | cons a b => simp
+    obtain ⟨G, hG, hle, hGn⟩ : ∃ G, fuelFor cfg' (prefixQuote D) = G + 2 ∧ fuelFor cfg D ≤ G + 1 ∧
+        (Lines.linesT D).length < G + 2 := by
+      refine ⟨fuelFor cfg' (prefixQuote D) - 2, ?_, ?_, ?_⟩
+      · unfold fuelFor; omega
+      · unfold fuelFor
+        rw [hn, hn', byteLen_prefixQuote, C.nesting]
+        omega
+      · unfold fuelFor
+        rw [hn']
+        omega
+    have ht := tokenize_mono hle htk
+    obtain ⟨t1, r, hrule, h1, h2, h3, h4, h5, h6⟩ := blockquote_on_prefixed C D htab hsize (G := G + 1) hGn ht
+    refine ⟨r, h6, ?_⟩
+    have hL := linesOk_linesT D htab hsize
+    have F0 : FreshFrom (Lines.linesT D) 0 (BState.fresh (prefixQuote D) .root []) :=
+      ⟨rfl, hn', rfl, hn', fun i _ hi => by
+        show (Lines.splitLines (prefixQuote D))[i]? = _
+        rw [splitLines_prefixQuote]; exact offsetsOf_entry _ i (by rw [prefixLines_length]; exact hi)⟩
+    obtain ⟨hind0, hline0, hoff0, _⟩ := fresh_prefixed_reads hL F0 (Nat.le_refl 0) (by omega)
+    have hrej : ∀ r, frontOk r = true → runRule cfg' (tokenize cfg' (G + 1)) (testRules cfg' (G + 1)) (G + 2) r
+        (BState.fresh (prefixQuote D) .root []) false = .ok (false, BState.fresh (prefixQuote D) .root []) :=
+      fun r hr => front_rejects hr hind0 hline0 rfl
+    have hrun : runChain (runRule cfg' (tokenize cfg' (G + 1)) (testRules cfg' (G + 1)) (G + 2)) cfg'.chain
+        (BState.fresh (prefixQuote D) .root []) false = .ok (true, t1) := by
+      rw [C.chain, hchain, runChain_front hrej pre _ hpre]
+      simp only [runChain, runRule, hrule]
+    have hne : (BState.fresh (prefixQuote D) .root []).isEmpty (BState.fresh (prefixQuote D) .root []).line = false := by
+      have hi : 0 < (Lines.linesT D).length := hn1
+      have hi' : 0 < (prefixLines (Lines.linesT D)).length := by rw [prefixLines_length]; exact hi
+      have ho := F0.fresh 0 (Nat.le_refl 0) hi
+      have hent : freshEntry (prefixLines (Lines.linesT D)) 0
+          = mkOff (startOf (prefixLines (Lines.linesT D)) 0) ('>' :: ' ' :: (Lines.linesT D)[0].1, (Lines.linesT D)[0].2) := by
+        simp [freshEntry, List.getElem?_eq_getElem hi', prefixLines_getElem (Lines.linesT D) 0 hi]
+      show Lines.isEmpty (BState.fresh (prefixQuote D) .root []).offs 0 = false
+      simp [Lines.isEmpty, ho, hent, mkOff, lead, Lines.isBlank]
+      have : 0 < '>'.utf8Size := by decide
+      omega
+    have htok : tokenize cfg' (G + 2) (BState.fresh (prefixQuote D) .root []) = .ok { t1 with tight := !false } := by
+      simp only [tokenize, engine]
+      exact tokLoop_one (by show 0 < (Lines.splitLines (prefixQuote D)).length; rw [hn']; omega) hne hind0 (by rw [C.nesting]; exact Nat.succ_pos _) hrun
+        (by rw [h1]; exact hn1) (by rw [h1, h2]; exact Nat.le_refl _)
+    unfold parseBlocks
+    rw [hG, htok]
+    simp [h3, h4, h5]
+
+section qc_examples
+/-- the ranges of the top-level blocks -/
+def topRanges : Except Panic (BNode × Refs.RefMap) → Option (List (Option (Nat × Nat)))
+  | .ok (root, _) => some (root.children.map (·.range))
+  | .error _ => none
+
+/-- the range of the single top-level block quote and the ranges of the blocks in it -/
+def quoteRanges : Except Panic (BNode × Refs.RefMap) → Option (Option (Nat × Nat) × List (Option (Nat × Nat)))
+  | .ok (⟨_, _, [⟨.blockquote, r, cs⟩]⟩, _) => some (r, cs.map (·.range))
+  | _ => none
+
+def okOf {α : Type} : Except Panic α → Bool
+  | .ok _ => true
+  | .error _ => false
+
+/-- `"a\n\n- b\n  c\n"` -/
+def qcDoc : List Char := ['a', '\n', '\n', '-', ' ', 'b', '\n', ' ', ' ', 'c', '\n']
+
+/-- the hypotheses of `quote_commutes` hold for the stock chain and the sixteen-line document `exDoc`
+    of `Props/Block.lean` (all nine rules fire in it), so does its conclusion -/
+example : ∃ r root refs, parseBlocks exCfg exDoc = .ok (root, refs) ∧
+    parseBlocks { exCfg with maxNesting := 101 } (prefixQuote exDoc) =
+      .ok (⟨.root, some (0, Lines.byteLen (prefixQuote exDoc)),
+            [⟨.blockquote, some r, relocNodes (sigma (Lines.linesT exDoc)) root.children⟩]⟩, refs) := by
+  have hok : okOf (parseBlocks exCfg exDoc) = true := by decide +kernel
+  cases h : parseBlocks exCfg exDoc with
+  | error e => rw [h] at hok; cases hok
+  | ok p =>
+    obtain ⟨root, refs⟩ := p
+    obtain ⟨r, _, hq⟩ := quote_commutes exCfg exDoc (by decide) (by decide +kernel) [.code, .fence] _ rfl (by decide) h
+    exact ⟨r, root, refs, rfl, hq⟩
+
+/-- `"a\n\n- b\n  c\n"` against `"> a\n> \n> - b\n>   c\n"`: paragraph `0..1` ↦ `2..3`, list `3..10` ↦ `9..18`
+    (2, 4, 6, 8 bytes inserted in front of lines 0, 1, 2, 3) -/
+example : prefixQuote qcDoc = ['>', ' ', 'a', '\n', '>', ' ', '\n', '>', ' ', '-', ' ', 'b', '\n', '>', ' ', ' ', ' ', 'c', '\n'] ∧
+    topRanges (parseBlocks exCfg qcDoc) = some [some (0, 1), some (3, 10)] ∧
+    quoteRanges (parseBlocks { exCfg with maxNesting := 101 } (prefixQuote qcDoc))
+      = some (some (0, 18), [some (2, 3), some (9, 18)]) ∧
+    sigma (Lines.linesT qcDoc) 0 = 2 ∧ sigma (Lines.linesT qcDoc) 1 = 3 ∧
+    sigma (Lines.linesT qcDoc) 3 = 9 ∧ sigma (Lines.linesT qcDoc) 10 = 18 := by decide +kernel
+
+/-- the extra level of nesting on the prefixed side is needed: at `max_nesting = 2` the paragraph of
+    `"> a"` is parsed, the one of `"> > a"` is not (the inner quote stays empty) -/
+example :
+    quoteRanges (parseBlocks { exCfg with maxNesting := 2 } ['>', ' ', 'a']) = some (some (0, 3), [some (2, 3)]) ∧
+    (match parseBlocks { exCfg with maxNesting := 2 } (prefixQuote ['>', ' ', 'a']) with
+      | .ok (⟨_, _, [⟨.blockquote, _, [⟨.blockquote, _, cs⟩]⟩]⟩, _) => some cs.length
+      | _ => none) = some 0 ∧
+    (match parseBlocks { exCfg with maxNesting := 3 } (prefixQuote ['>', ' ', 'a']) with
+      | .ok (⟨_, _, [⟨.blockquote, _, [⟨.blockquote, _, cs⟩]⟩]⟩, _) => some cs.length
+      | _ => none) = some 1 := by decide +kernel
+
+/-- the chain hypothesis is needed: with the paragraph rule in front of the block-quote rule the
+    prefixed document is one paragraph -/
+example :
+    (match parseBlocks { exCfg with chain := [.paragraph, .blockquote] } (prefixQuote ['a']) with
+      | .ok (⟨_, _, [⟨.paragraph, _, _⟩]⟩, _) => true
+      | _ => false) = true := by decide +kernel
+
+/-- tab-freeness is needed: `"\ta"` is an indented code block, `"> \ta"` a quote around a paragraph
+    (the tab stop is counted from the start of the line, `"> "` included: indent 2) -/
+example :
+    (match parseBlocks exCfg ['\t', 'a'], parseBlocks { exCfg with maxNesting := 101 } (prefixQuote ['\t', 'a']) with
+      | .ok (⟨_, _, [⟨.codeBlock _, _, _⟩]⟩, _), .ok (⟨_, _, [⟨.blockquote, _, [⟨.paragraph, _, _⟩]⟩]⟩, _) => true
+      | _, _ => false) = true := by decide +kernel
+end qc_examples
+
 /-
-OPEN: the whole-document congruence.
+OPEN: the list half of C06 at the level of whole documents.
 
-  def prefixQuote (D : List Char) : List Char      -- "> " in front of every line of D (blank ones too)
-  def shiftPos (D : List Char) (p : Nat) : Nat     -- p + 2 * (1 + number of line terminators of D before byte p)
-  def shiftRanges (D) : BNode → BNode              -- shiftPos on every range and on every mapping target
+  def itemDoc (w : Nat) (first : List Char) (D : List Char) : List Char
+      -- `first` (a line `"- x"`, marker width `w`), a blank line, then every non-blank line of D behind
+      -- `w` spaces (blank lines of D as they are or indented, both are blank)
+  def tau (w k : Nat) (D) (p : Nat) : Nat   -- p + |first two lines| + w * (number of non-blank lines of D up to p's)
 
-  theorem quote_commutes (cfg : Cfg) (D : List Char) (htab : '\t' ∉ D)
-      (hchain : .blockquote ∈ cfg.chain ∧ .paragraph ∉ rules of cfg.chain in front of .blockquote)
-      (root : BNode) (refs) (h : parseBlocks cfg D = .ok (root, refs)) :
-      parseBlocks { cfg with maxNesting := cfg.maxNesting + 1 } (prefixQuote D)
-        = .ok (⟨.root, some (0, |prefixQuote D|),
-                [⟨.blockquote, some (0, |prefixQuote D| − final terminator), root.children.map (shiftRanges D)⟩]⟩, refs)
+  theorem item_commutes (cfg) (D) (htab : '\t' ∉ D) (hsize)
+      (hchain : cfg.chain = pre ++ .list :: post, every rule of `pre` rejects the line `first`)
+      (h : parseBlocks cfg D = .ok (root, refs)) :
+      ∃ r₁ r₂ x, parseBlocks { cfg with maxNesting := cfg.maxNesting + 2 } (itemDoc w first D)
+        = .ok (⟨.root, some (0, |itemDoc w first D|),
+                [⟨.bulletList m, some r₁, [⟨.listItem, some r₂, x :: relocNodes (tau …) root.children⟩]⟩]⟩, refs)
+      -- x the paragraph of `first`; `+ 2`: the list rule raises `level` once for the list, once per item
 
-  Preconditions, all necessary:
-  * `maxNesting + 1` on the right: the block-quote rule raises `level` around its nested tokenizer, so
-    the prefixed document hits the nesting guard one level earlier.  With the SAME limit the property
-    fails at the limit: `max_nesting = 2`, D = "> a" renders `<blockquote><p>a</p></blockquote>`, while
-    "> > a" renders `<blockquote><blockquote></blockquote></blockquote>` (model and implementation agree:
-    stream `block`, documents "> > … a" with max_nesting 0,1,2,3,5).  With the default limit 100 this needs
-    a document nested 99 deep.
-  * the chain condition: with `paragraph` in front of `blockquote` (possible through `add_rule` without
-    the plugins' ordering constraints) "> a" is a paragraph.
-  * tab-free: `quote_view` fails with tabs (second `example` below it).
+  Proved towards it: `item_view` (entries: the list item leaves the table alone and sets
+  `blk_indent := w`, under which line `w spaces ++ l` shows the view of `l`), `viewPiece_item`,
+  `get_lines_item` (content), the look-ahead congruence `testRules_same_view` (which is stated over
+  `SameLook`, not over the quote relation, and applies as it is), and everything the block-quote proof
+  uses from `Props/Block.lean` (frame, restoration, fuel monotonicity, `tokenize_exit`).
+  Missing: the relation itself.  The block-quote proof goes through `Sim L s s'` whose table part `QRel`
+  says "entry `i` of `s'` is `shiftEntry i` of entry `i` of `s`, same `blk_indent`, same line numbers".
+  For the item the table part has to say "entry `i + 2` of `s'` is entry `i` of `s` moved by `tau`, with
+  `indent' = indent + w` on non-blank lines, `blk_indent' = blk_indent + w`, `line' = line + 2`,
+  `line_max' = line_max + 2`, `list_indent' = list_indent + w` below D's top level and `none` against
+  `some 0` at D's top level", and the nine `_sim` lemmas, `bqScan_sim`, `listLoop_sim`, `tokLoop_sim` have
+  to be re-proved over that relation.  Their proofs read the states through the accessor layer
+  `Tbl.lineIndent`, `Tbl.getLine`, `Tbl.isEmpty`, `Tbl.getLines`, `Tbl.getMap`, `Tbl.off` only, so the work
+  is that layer for the new relation plus a re-run of the rule proofs with line numbers offset by 2.
+  Two places are not a transcription of the quote proof: (a) a blank line of D need not be indented, so
+  `indent'` is unconstrained on blank lines (no rule reads it there: `is_empty` is tested first); (b) the
+  list rule's `listSpecial` test reads `list_indent`: at D's top level it is the `none` branch against
+  `indent' − 0 ≥ 4 ∧ indent' < w`, whose second conjunct is false because every non-blank line of D is
+  indented by `w`; below, both sides are `some` and the differences agree.
+  Until then the list half is covered by the implementation-side oracle `c06`.
 
-  What is proved: the per-line facts (`quote_view`, `quote_view_shift`: entries; `get_lines_quote`:
-  content), the look-ahead congruence (`testRules_same_view` over `SameLook`), restoration of the table
-  (`bqScan_spec`), progress / frame of every rule and of the tokenizer (`Props/Block.lean`).
-  What is missing is the simulation itself: a relation `Sim D s s'` between a state of the run on D and a
-  state of the nested run on `prefixQuote D` (same `line`, `line_max`; entry `i` of `s'` = `quoteEntry`-image
-  of entry `i` of `s`; `blk_indent`, `list_indent`, `tight` equal; `level' = level + 1`; children related by
-  `shiftRanges D`; equal reference maps), and, for each of the nine rules in REAL mode,
-      Sim D s s' → rule s false = .ok (b, t) → ∃ t', rule s' false = .ok (b, t') ∧ Sim D t t'
-  (for the two container rules: given the same for the nested tokenizer; their own rewriting commutes
-  with the quote's by `findIndent_tabfree`), then `tokLoop`/`engine` by the induction of `tokenize_spec`.
-  Each real-mode rule reads the state only through `lineIndent`, `getLine`, `isEmpty`, `getLines`,
-  `getMap`, `off.firstNonspace/indentNonspace/lineEnd` — all of which `Sim` relates — so every case is
-  an unfolding of the kind done in `Props/Block.lean`; it is not done.  The list relation (D as
-  continuation blocks of a loose item) is the same with `item_view` / `get_lines_item` and a line-index
-  offset.  Until then the composition is covered by the implementation-side oracle `c06`.
+Also outside this file: "renders exactly as" — the inline pass and the renderer on top of the block
+tree (`InlineRoot` content is equal on both sides, its mapping moved by `sigma`: `relocKind`); the
+composition is `Props/Pipeline.lean`'s business.
 -/
 
 end MdIt.Block
